@@ -422,6 +422,10 @@ func judgeC12(w *World, s, o1, o2, o3 *Peer, willTag, wq int, wr bool, cause, st
 		case e.K == EvBkEnter && e.Call == "Publish" && e.M != nil && TagOf(e.M.Payload) == willTag:
 			published++
 			seen = e.M
+		case e.K == EvBkReturn && e.Call == "Publish" && e.M != nil && TagOf(e.M.Payload) == willTag && e.Err != nil && e.Err != errInjected:
+			// handing the will to the backend is not publishing it if the backend
+			// turns it down (nothing was injected here: the backend did it itself)
+			res.Violate("C12", "C12.will-count", "refused-by-backend", fmt.Sprintf("the will was handed to the backend, which refused it: %v (cause %s in state %s)", e.Err, causeNames[cause], stateNames[state]))
 		}
 	}
 	// "did not send DISCONNECT": what the broker decoded counts only if the peer
